@@ -157,6 +157,10 @@ func unmarshalList(dec *msgpack.Decoder, ety cty.Type, path cty.Path) (cty.Value
 		vals = append(vals, val)
 	}
 
+	if !cty.CanListVal(vals) {
+		return cty.DynamicVal, path[:len(path)-1].NewErrorf("all list elements must have the same type")
+	}
+
 	return cty.ListVal(vals), nil
 }
 
@@ -186,6 +190,10 @@ func unmarshalSet(dec *msgpack.Decoder, ety cty.Type, path cty.Path) (cty.Value,
 		}
 
 		vals = append(vals, val)
+	}
+
+	if !cty.CanSetVal(vals) {
+		return cty.DynamicVal, path[:len(path)-1].NewErrorf("all set elements must have the same type")
 	}
 
 	return cty.SetVal(vals), nil
@@ -222,6 +230,10 @@ func unmarshalMap(dec *msgpack.Decoder, ety cty.Type, path cty.Path) (cty.Value,
 		}
 
 		vals[key] = val
+	}
+
+	if !cty.CanMapVal(vals) {
+		return cty.DynamicVal, path[:len(path)-1].NewErrorf("all map elements must have the same type")
 	}
 
 	return cty.MapVal(vals), nil
